@@ -3351,3 +3351,147 @@ func ruleChildVariadic(prog *Program, rep *Report, floor int, rels ...string) {
 	rep.Rules = append(rep.Rules, "F-childpaths: a recursive function does not pass its own variadic parameter through unchanged in a self-call whose first argument is an element of the value (a range variable or an index expression) ("+strings.Join(rels, ", ")+")")
 	runSynRule(prog, rep, "F-childpaths", rels, matchChildVariadic, fixtureChildVariadic, 1, floor)
 }
+
+// ---------------------------------------------------------------- P-guardtight
+
+// matchGuardTight: a condition of the form `K < len(x) && ... x[J] ...` guards constant indexes into x by a
+// length test. When the largest constant index used in the same condition is smaller than K the test demands
+// more elements than the condition looks at: inputs of length J+1..K, which the indexes could handle, take the
+// other branch (a one-byte path "@" no longer counts as a path).
+func matchGuardTight(files []*ast.File, info *types.Info) (sites []synSite, examined int) {
+	for _, f := range files {
+		ast.Inspect(f, func(n ast.Node) bool {
+			is, ok := n.(*ast.IfStmt)
+			if !ok {
+				return true
+			}
+			// conjuncts of the condition
+			var conj []ast.Expr
+			var split func(e ast.Expr)
+			split = func(e ast.Expr) {
+				if be, ok := ast.Unparen(e).(*ast.BinaryExpr); ok && be.Op == token.LAND {
+					split(be.X)
+					split(be.Y)
+					return
+				}
+				conj = append(conj, ast.Unparen(e))
+			}
+			split(is.Cond)
+			if len(conj) < 2 {
+				return true
+			}
+			for ci, c := range conj {
+				be, ok := c.(*ast.BinaryExpr)
+				if !ok {
+					continue
+				}
+				// K < len(x)  or  len(x) > K
+				var kExpr, lenExpr ast.Expr
+				switch be.Op {
+				case token.LSS:
+					kExpr, lenExpr = be.X, be.Y
+				case token.GTR:
+					kExpr, lenExpr = be.Y, be.X
+				default:
+					continue
+				}
+				call, ok := ast.Unparen(lenExpr).(*ast.CallExpr)
+				if !ok || len(call.Args) != 1 {
+					continue
+				}
+				if id, ok := call.Fun.(*ast.Ident); !ok || id.Name != "len" {
+					continue
+				}
+				tv, ok := info.Types[kExpr]
+				if !ok || tv.Value == nil {
+					continue
+				}
+				k, ok := constant.Int64Val(tv.Value)
+				if !ok || k < 0 {
+					continue
+				}
+				x := types.ExprString(call.Args[0])
+				// constant indexes into x in the later conjuncts
+				maxJ := int64(-1)
+				for _, later := range conj[ci+1:] {
+					ast.Inspect(later, func(m ast.Node) bool {
+						ix, ok := m.(*ast.IndexExpr)
+						if !ok || types.ExprString(ix.X) != x {
+							return true
+						}
+						if jv, ok := info.Types[ix.Index]; ok && jv.Value != nil {
+							if j, ok := constant.Int64Val(jv.Value); ok && j > maxJ {
+								maxJ = j
+							}
+						}
+						return true
+					})
+				}
+				if maxJ < 0 {
+					continue
+				}
+				// indexes or slices of x in the body may need the extra length
+				needs := maxJ
+				ast.Inspect(is.Body, func(m ast.Node) bool {
+					switch y := m.(type) {
+					case *ast.IndexExpr:
+						if types.ExprString(y.X) == x {
+							if jv, ok := info.Types[y.Index]; ok && jv.Value != nil {
+								if j, ok := constant.Int64Val(jv.Value); ok && j > needs {
+									needs = j
+								}
+							} else {
+								needs = 1 << 30
+							}
+						}
+					case *ast.SliceExpr:
+						if types.ExprString(y.X) == x {
+							for _, b := range []ast.Expr{y.Low, y.High} {
+								if b == nil {
+									continue
+								}
+								if jv, ok := info.Types[b]; ok && jv.Value != nil {
+									if j, ok := constant.Int64Val(jv.Value); ok && j-1 > needs {
+										needs = j - 1
+									}
+								} else {
+									needs = 1 << 30
+								}
+							}
+						}
+					}
+					return true
+				})
+				examined++
+				if needs < k {
+					name := enclosingFuncName(f, is.Pos())
+					sites = append(sites, synSite{pos: is.Pos(), file: f, key: fmt.Sprintf("%s:guard-%d-index-%d:%s", name, k, needs, x),
+						msg: fmt.Sprintf("%s tests %s and then looks at %s[%d] at most: values of %s with %d to %d elements take the other branch although every index used would be valid", name, types.ExprString(c), x, needs, x, needs+1, k)})
+				}
+			}
+			return true
+		})
+	}
+	return
+}
+
+const fixtureGuardTight = `package fixture
+
+func isPath(tv string) bool {
+	if 1 < len(tv) && (tv[0] == '$' || tv[0] == '@') {
+		return true
+	}
+	if 0 < len(tv) && tv[0] == '[' {
+		return true
+	}
+	if 1 < len(tv) && tv[0] == '.' {
+		return tv[1] == '.'
+	}
+	return false
+}
+`
+
+func ruleGuardTight(prog *Program, rep *Report, floor int, rels ...string) {
+	rep.Rules = append(rep.Rules, "P-guardtight: a condition `K < len(x) && ...` whose later conjuncts and whose branch index x by constants no larger than J < K demands more elements than it looks at ("+strings.Join(rels, ", ")+")")
+	runSynRule(prog, rep, "P-guardtight", rels, matchGuardTight, fixtureGuardTight, 1, floor)
+}
